@@ -296,6 +296,8 @@ def check_programs(ctx, cirq, cg, sympy, n):
         cirq.Circuit(cirq.Moment(cirq.X(gq)).with_tags('first'), cirq.Moment(cirq.X(gq)).with_tags('second')),
         cirq.Circuit(cirq.depolarize(0.0).on(gq)),
         cirq.Circuit(cirq.measure(gq, cirq.GridQubit(0, 1), key='m'), cirq.X(gq).with_classical_controls(cirq.BitMaskKeyCondition('m', index=-1, target_value=2**24 + 1, equal_target=True, bitmask=2**24 + 1))),
+        cirq.Circuit(cirq.Z(gq).with_tags('a', cg.PhysicalZTag()), (cirq.Z(gq) ** 0.5).with_tags(cg.PhysicalZTag(), 'b'), cirq.X(gq).with_tags('x', cg.CalibrationTag('t'), 'y')),
+        cirq.Circuit(cirq.X(cirq.NamedQubit('3')), cirq.CZ(cirq.NamedQubit('1_2'), cirq.NamedQubit('plain'))),
     ]
     for i in range(n + len(corpus)):
         if i < len(corpus):
@@ -328,7 +330,10 @@ def check_programs(ctx, cirq, cg, sympy, n):
         if DROPPED_SUBCIRCUIT_TAGS:
             ctx.report_witness('program:roundtrip:circuit-op-tags', 'tags on a CircuitOperation are dropped by serialize / deserialize',
                                {'lines': [{'circuit': repr(circuit)}], 'impl_out': ['()'], 'spec_out': DROPPED_SUBCIRCUIT_TAGS[:3], 'theorem_or_correspondence': 'program round trip'})
-        if diff:
+        if diff and any(isinstance(q, cirq.NamedQubit) and not isinstance(cg.api.v2.qubit_from_proto_id(q.name), cirq.NamedQubit) for q in circuit.all_qubits()):
+            ctx.report_witness('program:roundtrip:named-qubit-id', 'a NamedQubit whose name is the proto id of a line / grid qubit comes back as that qubit',
+                               {'lines': [{'circuit': repr(circuit)}], 'impl_out': [sorted(map(repr, back.all_qubits()))], 'spec_out': [sorted(map(repr, circuit.all_qubits()))], 'theorem_or_correspondence': 'program round trip'})
+        elif diff:
             ctx.report_witness('program:roundtrip', f'deserialize(serialize(c)) differs from c beyond single-precision rounding: {diff[:200]}',
                                {'lines': [{'circuit': repr(circuit)}], 'impl_out': [repr(back)[:3000]], 'spec_out': [repr(circuit)[:3000]], 'theorem_or_correspondence': 'program round trip'})
         # the constants table follows the interning discipline: no constant stored twice, serialization is deterministic
